@@ -709,8 +709,27 @@ class CtorSuite:
                                and [fro(x) for x in a.history[0][1].flatten().tolist()] == vols and len(a.history) == 1)
             except Exception as e:
                 independent = f"raised {type(e).__name__}"
+        # the default component name belongs to the well: it does not depend on which OTHER wells happen to be filled
+        names_stable = None
+        spec0 = case["spec"]
+        if init is not None and init["shape"] != "scalar" and not spec0.get("names") and not spec0.get("column_names") and not spec0.get("init_dtype"):
+            try:
+                flat = init["v"] if init["shape"] == "list" else [x for row in init["v"] for x in row]
+                if len(flat) >= 2 and any(Fraction(x) > 0 for x in flat) and any(Fraction(x) == 0 for x in flat):
+                    fill = "1/1024"
+                    full = {"shape": init["shape"], "v": ([x if Fraction(x) > 0 else fill for x in init["v"]] if init["shape"] == "list"
+                                                          else [[x if Fraction(x) > 0 else fill for x in row] for row in init["v"]])}
+                    lwf = progbase.build_labware(dict(spec0, init=full))
+                    cf = progbase.comp_obs(lwf)
+                    c0 = progbase.comp_obs(lw)
+                    name_of = lambda comp: {j: nm for nm, ent in (comp or {}).items() for j, f in ent if f == 1.0}
+                    n0, nf = name_of(c0), name_of(cf)
+                    names_stable = all(nf.get(j) == nm for j, nm in n0.items())
+            except Exception as e:
+                names_stable = None
         return {
             "err": None,
+            "names_stable": names_stable,
             "independent": independent,
             "wells": [[str(x) for x in row] for row in lw.wells],
             "keys": [[k, [int(v[0]), int(v[1])]] for k, v in lw.indices.items()],
@@ -742,6 +761,11 @@ class CtorSuite:
 
     def kind(self, case, obs):
         return case["spec"]["kind"] + ":" + (obs.get("exc") or "ok")
+
+    def oracle_C05(self, case, obs):
+        if not obs.get("err") and obs.get("names_stable") is False:
+            return ["naming: the default component name of a filled well changes when other (empty) wells of the labware are filled too"]
+        return []
 
     def oracle_C02(self, case, obs):
         """no accepted labware starts with a well outside [0, max_volume]"""
@@ -1328,8 +1352,8 @@ class SaveSuite:
         cases = []
         for i in range(160 if tier == "quick" else 4000):
             n = rng.choice([0, 1, 1, 2, 3, 5, 10, 50])
-            if i % 40 == 7:
-                n = rng.choice([999, 1000, 1001, 1002, 1500, 2049, 4100])  # long worklists (abbreviated displays, buffer sizes)
+            if i % 20 == 7:
+                n = rng.choice([999, 1000, 1001, 1002, 1500, 2049, 4100, 256, 512, 1024, 255, 257])  # long worklists, block sizes
             recs = [rng.choice(RECS[:-1]) for _ in range(n)]
             name = rng.choice(["out.gwl", "out.gwl", "OUT.GWL", "a b.Gwl", "out.gwl", "run 7.gwl", "µ.gwl", "a..gwl", "..gwl",
                                "out.txt", "out", "gwl", "x.gwl.txt", "my.gwl.bak", ".gwl", "a.gwl.", "agwl",
@@ -1340,6 +1364,10 @@ class SaveSuite:
                 recs[rng.randrange(len(recs))] = rng.choice(["C;two\nlines", "C;cr\rinside", "C;crlf\r\ninside", "\n", "C;end\n"])
             cases.append({"recs": recs, "name": name, "pre": rng.choice([None, "short", "long"]), "aspath": rng.random() < 0.5,
                           "via": rng.choice(["save", "save", "with", "with_exc", "twice", "with_save_other", "resave_foreign", "reenter_foreign"])})
+        # record counts around powers of two (block-wise writers)
+        for n in (127, 128, 129, 255, 256, 257, 511, 512, 513, 1024, 2048):
+            cases.append({"recs": [RECS[j % 3] for j in range(n)], "name": "blocks.gwl", "pre": "long" if n % 2 else None, "aspath": False,
+                          "via": "save" if n % 3 else "with"})
         return cases
 
     def run(self, case):
